@@ -167,6 +167,7 @@ struct Net {
 	txmap: HashMap<Txid, Transaction>,
 	open_h: u32,
 	rb_tick: u32,
+	in_reorg: bool,
 }
 
 fn harness_key() -> SecretKey {
@@ -815,7 +816,9 @@ impl Net {
 		for i in self.live.clone() {
 			self.ev(json!({"ev":"bal","node":i,"h":h,"items":bals[i]}));
 		}
-		self.ev(json!({"ev":"state","h":h}));
+		// (between the disconnection of blocks and the connection of the new tip a reorganisation is still
+		//  being processed: the node's obligations are judged once the new tip is there)
+		if !self.in_reorg { self.ev(json!({"ev":"state","h":h})); }
 		self.last_state = sig;
 	}
 
@@ -840,6 +843,7 @@ impl Net {
 			}
 		}
 		self.jump_from = Some(h0 + 1);
+		self.in_reorg = false;
 		self.checkpoint(Some(Vec::new()), false);
 		self.jump_from = None;
 		true
@@ -970,6 +974,7 @@ impl Net {
 			let lg = self.nodes[owner].logger;
 			let _ = catch_unwind(AssertUnwindSafe(|| { a.block_connected(&block.header, &txdata, h_next, bc, fe, lg); }));
 		}
+		self.in_reorg = false;
 		self.checkpoint(Some(ids), false);
 	}
 
@@ -1289,6 +1294,9 @@ impl Net {
 		// the harness' view of the chain
 		let gone: HashSet<Txid> = self.conf.iter().filter(|(t, c)| **c > to && self.ids.contains_key(*t)).map(|(t, _)| *t).collect();
 		for t in gone.iter() { self.conf.remove(t); }
+		// (claims that had lost an input to a transaction which now left the chain: the network dropped
+		//  them when that transaction confirmed and does not bring them back)
+		let freed: HashSet<OutPoint> = self.spent.iter().filter(|(_, t)| gone.contains(*t)).map(|(o, _)| *o).collect();
 		self.spent.retain(|_, t| !gone.contains(t));
 		let mut back: Vec<MemTx> = Vec::new();
 		let mut k = 0;
@@ -1302,7 +1310,8 @@ impl Net {
 				let mut more = false;
 				for m in back.iter() {
 					if m.by >= 2 || m.sweep || dead.contains(&m.txid) { continue; }
-					if m.tx.input.iter().any(|i| gone.contains(&i.previous_output.txid) || dead.contains(&i.previous_output.txid)) {
+					if m.tx.input.iter().any(|i| gone.contains(&i.previous_output.txid) || dead.contains(&i.previous_output.txid)
+						|| (freed.contains(&i.previous_output) && !gone.contains(&m.txid))) {
 						dead.insert(m.txid);
 						more = true;
 					}
@@ -1346,6 +1355,7 @@ impl Net {
 			conf.contains_key(&op.txid)
 		});
 		if !evicted.is_empty() { self.rb_tick = 10; }
+		self.in_reorg = true;
 		self.ev(json!({"ev":"rewind","from":h,"h":to,"unconf":unconf,"evicted":evicted,"keep":keep}));
 		self.checkpoint(None, true);
 		true
@@ -1603,7 +1613,7 @@ fn build_net(run: u64, cfg: &Value) -> Net {
 		commits: [Vec::new(), Vec::new()], commit_logged: false, confirmed_commit: None, pending: Vec::new(), last_state: String::new(),
 		idle_from: None, executed: 0, skipped: 0, swept: [0, 0], refused: [false, false], jump_from: None, mined: Vec::new(), fork: 0, hwm: 0,
 		agent_descs: Vec::new(), agent_manual: cfg["agent_manual"].as_bool().unwrap_or(false), fee_utxos, fee_next: 0, next_shape: None,
-		txmap: HashMap::new(), open_h: 0, rb_tick: 0,
+		txmap: HashMap::new(), open_h: 0, rb_tick: 0, in_reorg: false,
 	};
 	net.drain_msgs();
 	net.deliver(usize::MAX);
@@ -1851,7 +1861,7 @@ fn shape_script(rng: &mut StdRng) -> Value {
 	let (mut succ, mut tout): (Vec<usize>, Vec<usize>) = (Vec::new(), Vec::new());
 	let amts = ["big", "big", "small", "small", "edge"];
 	for k in 0..npay {
-		let to_owner = rng.gen_bool(0.7);
+		let to_owner = rng.gen_bool(0.6);
 		history.push(json!({"op":"pay","from": if to_owner { victim } else { owner },"amt":amts[rng.gen_range(0..amts.len())]}));
 		if to_owner { succ.push(k); } else { tout.push(k); }
 	}
@@ -1885,7 +1895,7 @@ fn shape_script(rng: &mut StdRng) -> Value {
 		round(&mut chain, rng, &mut known);
 		extras(&mut chain, rng);
 	}
-	if !tout.is_empty() && rng.gen_bool(0.6) {
+	if !tout.is_empty() && rng.gen_bool(0.8) {
 		chain.push(json!({"op":"to_expiry","htlc":0,"who": if rng.gen_bool(0.5) { json!("none") } else { json!([victim]) },"agent_pays":[],"off":rng.gen_range(0..2)}));
 		chain.push(json!({"op":"mine","who":"none","n":1}));
 		for _ in 0..rng.gen_range(1..=2) {
